@@ -347,6 +347,14 @@ fn block_weight(specs: &[TxSpec]) -> u64 {
 #[derive(Clone, Debug, Serialize, Deserialize)]
 pub struct History {
 	pub blocks: Vec<RawBlock>,
+	/// false: SKIP_POW with free per-block difficulty — siblings can carry more work, a reorganisation can
+	/// keep or shorten the chain
+	#[serde(default = "yes")]
+	pub real: bool,
+}
+
+fn yes() -> bool {
+	true
 }
 
 fn history() -> impl Strategy<Value = History> {
@@ -354,7 +362,7 @@ fn history() -> impl Strategy<Value = History> {
 		b.parent = p;
 		b
 	});
-	prop::collection::vec(blk, 4..=18).prop_map(|blocks| History { blocks })
+	(prop::collection::vec(blk, 4..=18), prop::bool::weighted(0.7)).prop_map(|(blocks, real)| History { blocks, real })
 }
 
 pub fn history_run(ctx: &Ctx, h: &History, counting: bool) -> PResult {
@@ -362,13 +370,14 @@ pub fn history_run(ctx: &Ctx, h: &History, counting: bool) -> PResult {
 	let ev = &ctx.ev;
 	let dir = ctx.scratch_dir("c01h");
 	let cb = ChainBox::open(&dir).map_err(|e| Fail::new("init-fresh", e))?;
-	let mut w = World::new(&cb.genesis, true);
+	let mut w = World::new(&cb.genesis, h.real);
+	let pm = if h.real { PowMode::Real } else { PowMode::Skip(1) };
 	let mut head = 0usize;
 	let (mut reorgs, mut spends) = (0u32, 0u32);
 	for (i, raw) in h.blocks.iter().enumerate() {
 		let built = w.build(cb.c(), raw, head).map_err(|e| Fail::new("builder", format!("op {}: {}", i, e)))?;
-		header_first(cb.c(), &built.block, raw.hdr, built.verdict.is_ok(), PowMode::Real)?;
-		let res = cb.c().process_block(built.block.clone(), opts(PowMode::Real));
+		header_first(cb.c(), &built.block, raw.hdr, built.verdict.is_ok(), pm)?;
+		let res = cb.c().process_block(built.block.clone(), opts(pm));
 		match (&built.verdict, res) {
 			(Ok(m), Ok(tip)) => {
 				let n = w.push(&built, m.clone());
